@@ -795,6 +795,11 @@ fucked:
 	return (struct dt_dt_s){DT_UNK};
 }
 
+#if defined DATEUTILS_VERIF
+/* verification hook: observer of the print record after each specifier */
+extern void (*dt_verif_strf_obs)(const void *rec, size_t recsz);
+#endif	/* DATEUTILS_VERIF */
+
 DEFUN size_t
 dt_strfdt(char *restrict buf, size_t bsz, const char *fmt, struct dt_dt_s that)
 {
@@ -1012,6 +1017,11 @@ dt_strfdt(char *restrict buf, size_t bsz, const char *fmt, struct dt_dt_s that)
 		} else if (UNLIKELY(spec.rom)) {
 			bp += __strfd_rom(bp, eo - bp, spec, &d.sd, that.d);
 		}
+#if defined DATEUTILS_VERIF
+		if (dt_verif_strf_obs != NULL) {
+			dt_verif_strf_obs(&d, sizeof(d));
+		}
+#endif	/* DATEUTILS_VERIF */
 	}
 out:
 	if (bp < buf + bsz) {
